@@ -123,6 +123,35 @@ def decode_slot(ie):
     raise Unsupported("unsupported _hinfo index form %r" % ie.d)
 
 
+def unwrap(node):
+    node = strip(node)
+    while node["kind"] in ("ExprWithCleanups", "MaterializeTemporaryExpr", "ImplicitCastExpr", "CXXStaticCastExpr",
+                           "CXXFunctionalCastExpr", "CXXBindTemporaryExpr", "ParenExpr"):
+        node = strip(node["inner"][-1])
+    return node
+
+
+def parse_ycenter(init):
+    """initialiser of `ycenter`:  <axis(1)>->zerobin()                          -> None (unclamped)
+                                   std::min(std::max(zerobin(), LO), _ysize-HI) -> (LO, HI)"""
+    node = unwrap(init)
+    if node["kind"] == "CXXMemberCallExpr" and strip(node["inner"][0]).get("name") == "zerobin":
+        return None
+    if node["kind"] == "CallExpr" and name_of(node["inner"][0]) == "min" and len(node["inner"]) == 3:
+        inner, hi = unwrap(node["inner"][1]), node["inner"][2]
+        if inner["kind"] == "CallExpr" and name_of(inner["inner"][0]) == "max" and len(inner["inner"]) == 3:
+            zb, lo = unwrap(inner["inner"][1]), unwrap(inner["inner"][2])
+            if not (zb["kind"] == "CXXMemberCallExpr" and strip(zb["inner"][0]).get("name") == "zerobin"):
+                raise Unsupported("ycenter: clamped quantity is not zerobin()")
+            if lo["kind"] != "IntegerLiteral":
+                raise Unsupported("ycenter: lower clamp is not an integer literal")
+            hie = int_expr(unwrap(hi))
+            if set(hie.d) <= {"ys", ""} and hie.d.get("ys") == 1 and hie.d.get("", 0) <= 0:
+                return (int(lo["value"]), -hie.d.get("", 0))
+            raise Unsupported("ycenter: upper clamp is not _ysize - c")
+    raise Unsupported("ycenter initialiser form")
+
+
 class FPExec:
     def __init__(self, fptype_val, ip):
         self.fpt = fptype_val
@@ -205,6 +234,10 @@ class FPExec:
                     raise Unsupported("declaration form")
                 if ctype(v) != "f32":
                     raise Unsupported("local %s is not float" % v["name"])
+                if v["name"] == "ycenter":
+                    self.ycenter_clamp = parse_ycenter(v["inner"][0])
+                    self.locals["ycenter"] = E("var", "f32", lean="ycenter")
+                    continue
                 self.locals[v["name"]] = self.tr.tr(v["inner"][0])
             return
         if k == "IfStmt":
@@ -389,6 +422,7 @@ def generate():
     out.append("variable {α : Type} [Arith α]\n")
     skeletons = {}
     bodies = []   # (dt, fpt, bodyid, leanrow)
+    clamps = set()
     for dt in sorted(cases):
         per_fpt = {}
         for fname, fpt in sorted(FPTYPES.items(), key=lambda x: x[1]):
@@ -400,6 +434,7 @@ def generate():
                 ex.stmt(s, False)
             ex.flush()
             per_fpt[fpt] = ex.writers
+            clamps.add(getattr(ex, "ycenter_clamp", "undeclared"))
         # the skeleton must not depend on fptype
         skel0 = None
         for fpt, ws in per_fpt.items():
@@ -419,6 +454,14 @@ def generate():
         for fpt, ws in per_fpt.items():
             for bid, w in enumerate(ws):
                 bodies.append((dt, fpt, bid, lean_row(w[-1])))
+    if len(clamps) != 1 or "undeclared" in clamps:
+        raise Unsupported("ycenter is not declared once before the switch")
+    clamp = clamps.pop()
+    out.append("/-- how the constructor derives `ycenter` (the row where the 4-point stencil changes sides) from the\n"
+               "    energy axis' zero bin: `none` = taken as it is; `some (lo, hi)` = clamped to `[lo, _ysize - hi]`\n"
+               "    (`std::min(std::max(zerobin, lo), _ysize - hi)`) -/")
+    out.append("def fpYcenterClamp : Option (Nat × Nat) := %s\n" % (
+        "none" if clamp is None else "some (%d, %d)" % clamp))
     out.append("/-- derivation types handled by the constructor's switch (= entries per row `_ip`) -/")
     out.append("def fpDerivTypes : List Nat := [%s]\n" % ", ".join(str(d) for d in sorted(cases)))
     out.append("/-- program-ordered row writers of the constructor for derivation type `dt` -/")
